@@ -115,7 +115,12 @@ impl<A: Tracker> Driver<A> {
     self.sync_world();
     let events = log::take();
     for e in &events { self.shadow.apply(e); }
-    let dump = shadow::convert(&self.pie.verif_dump());
+    // the dump walks every adjacency list and edge; a store whose redundant encodings disagree makes it panic
+    let pie = &self.pie;
+    let dump = match catch(|| shadow::convert(&pie.verif_dump())) {
+      Ok(d) => d,
+      Err(msg) => { let mut d = Dump::default(); d.problems.push(format!("the store dump panicked (the store's adjacency sets and edge data disagree): {}", msg)); d }
+    };
     SessionRec {
       no: self.session_no, kind, pre_world, post_world: self.world.clone(), events, roots: returned,
       requested_roots: roots.to_vec(), scheduled, aborted, dep_errors, shadow_before, dump,
